@@ -321,7 +321,6 @@ def frame_problems(enc: bytes):
 
 
 SIG_BODYLEN = "C10-bodylength-not-verified"
-SIG_UNTERM = "C10-unterminated-frame-returned"
 
 
 def classify_returned(enc: bytes):
@@ -334,10 +333,8 @@ def classify_returned(enc: bytes):
     if probs & {"bodylength-mismatch", "bodylength-not-canonical", "bodylength-missing"}:
         sigs.append((SIG_BODYLEN, "a frame whose BodyLength(9) disagrees with its bytes is returned as a message "
                      "(BodyLength is never compared with the bytes)"))
-    if "no-trailing-soh" in probs and not sigs:
-        sigs.append((SIG_UNTERM, "a frame whose CheckSum field is not terminated by SOH (e.g. a valid frame whose last byte "
-                     "was deleted, followed by the first bytes of the next frame) is returned as a message, and one byte "
-                     "of the following frame is consumed with it"))
+    if "no-trailing-soh" in probs:
+        sigs.append(("C10-returned-frame:no-trailing-soh", "a frame whose CheckSum field is not terminated by SOH was returned"))
     return sigs, probs
 
 
@@ -458,6 +455,7 @@ BRANCH_OF_ASSERT = [
     ("no fix header", "no-marker"), ("Minimum message", "lt3-fields"), ("protocol beginstring mismatch", "beginstring"),
     ("BodyLength split error", "bodylength-split"), ("2nd tag must be BodyLength", "bodylength-not-2nd"),
     ("BodyLength must be a non-negative number", "bodylength-int"), ("incomplete message", "incomplete"),
+    ("incomplete CheckSum field", "checksum-field-open"),
     ("incomplete tag", "field-without-eq"), ("non-numeric tag", "tag-int"), ("invalid checksum", "checksum-invalid"),
     ("Checksum probably missing", "checksum-missing"),
 ]
@@ -625,7 +623,6 @@ def finding_witnesses():
     return [
         ("pinned-test-frame", pinned),
         ("nul-inserted-into-value", f[:i] + b"\x00" + f[i:]),
-        ("final-soh-deleted+next-marker", f[:-1] + b"8=FIX."),
     ]
 
 
